@@ -32,6 +32,8 @@ var c12Shapes = map[string][]c12File{
 	"L0x2+L1+L2": {{Level: 2, Seq: 1}, {Level: 1, Seq: 1}, {Level: 0, Seq: 1}, {Level: 0, Seq: 2}},
 	"L0+L1":      {{Level: 1, Seq: 1}, {Level: 0, Seq: 1}},
 	"L0x3+L1":    {{Level: 1, Seq: 1}, {Level: 0, Seq: 1}, {Level: 0, Seq: 2}, {Level: 0, Seq: 3}},
+	// a gap between the levels: the level below the compaction target is empty, an older version lives deeper
+	"L0x2+L3": {{Level: 3, Seq: 1}, {Level: 0, Seq: 1}, {Level: 0, Seq: 2}},
 	// size-ratio selections (a level outweighs the next one): level 0 -> 1 and level 1 -> 2
 	"fatL0+L1":    {{Level: 1, Seq: 1}, {Level: 0, Seq: 1, Fat: true}},
 	"fatL1+L2":    {{Level: 2, Seq: 1}, {Level: 1, Seq: 1, Fat: true}},
@@ -372,7 +374,7 @@ func init() {
 	fw.Register(&fw.Check{
 		ID:    "C12",
 		Level: "model_checking",
-		Rule: "file level: every assignment {absent,value,tombstone} of 3 keys x files for 9 file-set shapes (2-3 level-0 files, optional level-1/level-2 file; three shapes with a file padded to outweigh the next level by more than the compaction ratio, so that the size-ratio selection level 0 -> 1 and level 1 -> 2 runs), each non-empty file written with the real SSTable writer; the real coordinator runs TriggerCompaction until it selects nothing (view checked after every cycle) and CompactRange for 5 ranges, with the tombstone tracker knowing the deletes / not knowing them (restart) / retention expired. Oracle: newest-wins merged view of all files on disk (lower level newer, within level 0 higher file number newer) is unchanged; outputs sorted and duplicate-free; no two files of a level >=1 hold the same key. Engine level and crash points: see units eng/ and crash/. Non-trivial = arrangements in which every file of the shape is non-empty",
+		Rule: "file level: every assignment {absent,value,tombstone} of 3 keys x files for 10 file-set shapes (2-3 level-0 files, optional level-1/level-2 file, one shape with empty levels between level 0 and an old level-3 file; three shapes with a file padded to outweigh the next level by more than the compaction ratio, so that the size-ratio selection level 0 -> 1 and level 1 -> 2 runs), each non-empty file written with the real SSTable writer; the real coordinator runs TriggerCompaction until it selects nothing (view checked after every cycle) and CompactRange for 5 ranges, with the tombstone tracker knowing the deletes / not knowing them (restart) / retention expired. Oracle: newest-wins merged view of all files on disk (lower level newer, within level 0 higher file number newer) is unchanged; outputs sorted and duplicate-free; no two files of a level >=1 hold the same key. Engine level and crash points: see units eng/ and crash/. Non-trivial = arrangements in which every file of the shape is non-empty",
 		Assumptions: []string{"recency rule is the specification's (DESIGN §3 C12), not read off the implementation"},
 		Units: func(tier string) []string {
 			var us []string
@@ -396,6 +398,9 @@ func init() {
 					nsh, nk = 2, 2 // quick: 4-file shapes with 2 keys (3^8 arrangements), thorough: 3 keys (3^12)
 				} else if len(c12Shapes[sh]) == 4 {
 					nsh = 48
+				}
+				if tier != "thorough" && sh == "L0x2+L3" {
+					nsh, nk = 2, 2
 				}
 				if tier != "thorough" && sh == "L0+fatL1+L2" {
 					nsh, nk = 2, 2 // quick: 2 keys (3^6 arrangements)
